@@ -40,6 +40,6 @@ Definition c20_manifest (name : Manifest.fname) (b : bytes) : Z :=
     end
   end.
 
-Extraction "../ocaml/c20/model.ml" mc_parse me_parse fsp_parse mc_alloc mc_alloc_orig key_alloc key_alloc_orig
+Extraction "../ocaml/c20/model.ml" mc_parse me_parse fsp_parse sacm_parse_size sacm_parse mc_alloc mc_alloc_orig key_alloc key_alloc_orig
   c20_fmap c20_fit_table c20_fit_entries c20_cbfs c20_psp_table c20_bios_table c20_find_psp
   c20_find_bios c20_efs c20_rootkey c20_apcb c20_zlib_frame c20_manifest.
